@@ -1512,6 +1512,11 @@ func (r *Raft) appendEntries(rpc RPC, a *AppendEntriesRequest) {
 		var prevLogTerm uint64
 		if a.PrevLogEntry == lastIdx {
 			prevLogTerm = lastTerm
+		} else if snapIdx, snapTerm := r.getLastSnapshot(); a.PrevLogEntry == snapIdx {
+			// The entry our snapshot ends with is not in the log any more, but
+			// its term is known: a leader may continue from there even though
+			// we hold (possibly conflicting) entries above it.
+			prevLogTerm = snapTerm
 		} else {
 			var prevLog Log
 			if err := r.logs.GetLog(a.PrevLogEntry, &prevLog); err != nil {
